@@ -8,26 +8,32 @@
 (* DiffLogicImpl; the action constraint Emit sees every generated transition, new target state or not.                   *)
 EXTENDS MC_DiffLogicImpl, Json
 
-VARIABLES ops,     \* the history: <<"assert", id, value, matrix>> | <<"push", matrix>> | <<"pop", matrix>>
+CONSTANT EmitFrom    \* 0: every transition is a test (exhaustive search); k: only histories of at least k steps and those ending in
+                     \* a conflict are (random walks over the model: tlc -simulate)
+
+VARIABLES ops,     \* the history: <<"assert", id, value, reasons, values, matrix>> | <<"push", values, matrix>> | <<"pop", values, matrix>>
           fresh    \* asserting is possible: at root level always, above it only until the first pop back to the level
                    \* (the public interface offers no way to add a propagation to a level that was returned to)
 
 Mat(d) == [i \in 1..N |-> [j \in 1..N |-> d[<<i - 1, j - 1>>]]]
+\* the value of every atom (by id): asserted, else propagated by the theory
+Ids == {b.id : b \in Atoms}
+EffVals(vl, p) == [i \in Ids |-> LET b == AtomById(i) IN IF vl[b] # "U" THEN vl[b] ELSE p[b]]
 GInit == Init /\ ops = <<>> /\ fresh = TRUE
 Alive == lastOp[1] # "conflict"      \* a test ends with its conflict
 GAssert(a, v) ==
   /\ Alive /\ fresh /\ AssertLit(a, v)
-  /\ ops' = Append(ops, <<lastOp'[1], a.id, v, Mat(dists')>>) /\ fresh' = fresh
-GPush == Alive /\ Push /\ ops' = Append(ops, <<"push", Mat(dists')>>) /\ fresh' = TRUE
-GPop == Alive /\ Pop /\ ops' = Append(ops, <<"pop", Mat(dists')>>) /\ fresh' = (Len(layers) = 1)
+  /\ ops' = Append(ops, <<lastOp'[1], a.id, v, IF lastOp'[1] = "assert" THEN lastOp'[4] ELSE {}, EffVals(val', pv'), Mat(dists')>>) /\ fresh' = fresh
+GPush == Alive /\ Push /\ ops' = Append(ops, <<"push", EffVals(val', pv'), Mat(dists')>>) /\ fresh' = TRUE
+GPop == Alive /\ Pop /\ ops' = Append(ops, <<"pop", EffVals(val', pv'), Mat(dists')>>) /\ fresh' = (Len(layers) = 1)
 GNext == GPush \/ GPop \/ \E a \in Atoms, v \in {"T", "F"} : GAssert(a, v)
 GSpec == GInit /\ [][GNext]_<<vars, ops, fresh>>
 
-GView == <<dists, preds, dconstr, val, layers, hist, fresh, lastOp[1] = "conflict">>
+GView == <<dists, preds, dconstr, val, pv, layers, hist, fresh, lastOp[1] = "conflict">>
 
 \* one line per transition: the history including the new step, the matrices at the standing pushes (the state a backjump
 \* to that level must restore), and the description of the atoms
-Emit == PrintT(<<"DLTEST", ToJson([ops |-> ops', bases |-> [k \in 1..Len(hist) |-> Mat(hist[k][1])], scale |-> Scale, n |-> N])>>)
+Emit == (Len(ops') >= EmitFrom \/ lastOp'[1] = "conflict") => PrintT(<<"DLTEST", ToJson([ops |-> ops', bases |-> [k \in 1..Len(hist) |-> Mat(hist[k][1])], scale |-> Scale, n |-> N])>>)
 AtomsJson == PrintT(<<"DLATOMS", ToJson([a \in {b.id : b \in Atoms} |-> LET b == AtomById(a) IN <<b.from, b.to, b.d>>])>>)
 ASSUME AtomsJson
 =============================================================================
